@@ -654,7 +654,8 @@ class C10(Spec):
     technique = ('Lean 4 proofs over an executable model of hash/cmp/assign/copy/swap whose hash_data, Float_Hash shape and container folds are '
                  'regenerated from the C source on every run; differential check of values, Table slot arrays and hashes against the real '
                  'library; independent MurmurHash64A and shadow values (equal-by-construction pairs) as the direct oracle')
-    level_text = ('Round-3 additions: valCmp mirrors the sequence Cmps against a Table/Tree (keys alone): C10_eq_hash carries the explicit hypothesis "not a sequence against a map", the full statement is refuted (C10_eq_hash_seq_map_refuted, KF-C10-seq-map-eq); objects carry the class of the memory their String/Tuple buffer lies in, swap moves it with the struct: C10_swap_exchanges (values, buffers, TypeError for unlike types), C10_swap_keeps_ownership_partial (buffers of one kind: both still own their buffer), C10_swap_foreign_buffer_refuted (KF-C10-swap-foreign-buffer); C10_swap_hashes now covers Tuples (TupleApart); assign(x,x) covers String in every class through the extracted guard of String_Assign (fix 744a45f; the old code is refuted: C10_string_assign_self_old_refuted); Array/List from a Tuple is modelled and refuted (C10_assign_from_tuple_refuted, KF-C10-assign-from-tuple). Theorems (Props/C10.lean): hash_data as extracted from src/Hash.c equals MurmurHash64A for every byte string and reads only the given '
+    level_text = ('Extension round: hash_data is also run as a program over addressable memory — cursor d, end = d + (size & ~endMask), the loop while (d != end) with a load of loadWidth bytes and a step of loadAdvance, d[idx] in the tail switch, the signedness of d\'s element type, all five read from src/Hash.c (hashDataMem; none = the cursor stepped over end) — and proved equal to hashData of the size bytes at the address for every memory, address and size (C10_hash_data_program_is_hash_data, _is_murmur), hence a function of the byte list alone (C10_hash_data_depends_only_on_bytes, C10_hash_data_at_any_address); C10_hash_data_source_frame is about the generated frame; a cursor over signed bytes and a step unequal to the load width are refuted (C10_hash_data_signed_bytes_refuted, C10_hash_data_wide_step_refuted). The five container hashes are extracted as programs (start value, first index of the counted loop, right-hand side of the loop\'s assignment to h as an expression over h and the hashes of element / key / value: CelloGen.Hash.FoldProg), run by seqHashSrc / mapHashSrc / valHashSrc (which the driver prints) and proved equal to the folds (C10_container_hash_source), so eq implies equal hashes over the extracted programs (C10_eq_hash_source, C10_container_hash_source_perm). '
+                  'Round-3 additions: valCmp mirrors the sequence Cmps against a Table/Tree (keys alone): C10_eq_hash carries the explicit hypothesis "not a sequence against a map", the full statement is refuted (C10_eq_hash_seq_map_refuted, KF-C10-seq-map-eq); objects carry the class of the memory their String/Tuple buffer lies in, swap moves it with the struct: C10_swap_exchanges (values, buffers, TypeError for unlike types), C10_swap_keeps_ownership_partial (buffers of one kind: both still own their buffer), C10_swap_foreign_buffer_refuted (KF-C10-swap-foreign-buffer); C10_swap_hashes now covers Tuples (TupleApart); assign(x,x) covers String in every class through the extracted guard of String_Assign (fix 744a45f; the old code is refuted: C10_string_assign_self_old_refuted); Array/List from a Tuple is modelled and refuted (C10_assign_from_tuple_refuted, KF-C10-assign-from-tuple). Theorems (Props/C10.lean): hash_data as extracted from src/Hash.c equals MurmurHash64A for every byte string and reads only the given '
                   'bytes; cmp = 0 implies equal hashes for Int, Float (non-NaN, incl. ±0), String, Type, plain structs and Ref/Box; the container hash is '
                   'invariant under permutation of the elements/entries, hence equal for eq sequences of any kind (Array/List/Tuple) and for Tables and '
                   'Trees a function of the abstract map independent of layout and insertion history; copy/assign yield an eq value with the same hash for '
@@ -723,7 +724,7 @@ class C10(Spec):
             '(which performs every element move with the width extracted from the source); the harness counts two-children removals and shifting '
             'removals on wide entries (I lines). '
             'non-trivial item = a distinct observation line of an eq/heq/copy/assign/swap/sort op that was executed (not refused), or of hash_data with len>0.')
-    trusted_base = ('translate/g_hash.py generator Hash (regex over hash_data, Int_Hash, Float_Hash, String_Hash, Type_Hash, the five container hashes, '
+    trusted_base = ('translate/g_hash.py generator Hash (regex over hash_data — now including the declared element type of its cursor, the mask of `end`, the width of the block load, the cursor step and the switch mask, which are data of the model; still compared as text: `h = SEED ^ (size * m)`, `while (d != end)`, the cast `(uint64_t)(d[i])` —, the loops and assignments of the five container hashes as programs; Int_Hash, Float_Hash, String_Hash, Type_Hash, the five container hashes, '
                     'the hash/cmp/assign/swap/copy defaults, Table_Primes; a recursive-descent reader of the body of memswap (guard, cursor declarations, the four '
                     'loop forms, memcpy / *a++ / p[i] statements) and the field counts of the structs swap exchanges; the size/offset expressions of Tree_Alloc/Key/Val/Rem, Table_Step/Key/Val/'
                     'Set_Move/Rehash/Rem, Array_Step/Item/Pop_At/Push_At; the position of `if (val is s->val) { return; }` in String_Assign relative to c_str, the class test and realloc)',
@@ -775,6 +776,8 @@ class C10(Spec):
             kv = dict(x.split('=') for x in l[2:].split() if '=' in x)
             if int(kv.get('tree_not_descending', 0)) or int(kv.get('table_keys_not_distinct', 0)) or int(kv.get('unsized_states', 0)):
                 return f'invariant of the model violated on this input: {l}'
+            if int(kv.get('hash_data_mem_ne_bytes', 0)):
+                return f'hash_data run as the extracted program on a memory (cursor, end, loads, byte signedness) departs from hash_data over the byte string: the source frame is no longer the one of C10_hash_data_source_frame: {l}'
             if int(kv.get('float_src_ne_model', 0)):
                 return f'Float_Cmp as extracted, run on the machine\'s doubles, departs from the bit-level floatCmp of the model (SubSign fails for the machine, or the source no longer compares by the sign of the difference): {l}'
             if int(kv.get('float_sf_ne_hw', 0)):
